@@ -667,8 +667,10 @@ def large_cases(rng, start_id, n, sizes):
     for i in range(n):
         m = METHODS[i % len(METHODS)]
         N = rng.choice(sizes)
-        if m in ("tsne", "ms", "hlle", "spe", "fa"):
+        if m in ("tsne", "hlle", "spe", "fa"):
             N = min(N, 120)
+        if m == "ms":
+            N = 64
         D = rng.choice([2, 3, 5, 8])
         k = rng.choice([5, 8, 12])          # the extracted model walks lists: keep N * k * k small
         L = None
@@ -687,7 +689,8 @@ def large_cases(rng, start_id, n, sizes):
         if m == "fa":
             over["maxit"] = 5
         dmax = {"hlle": 4, "tsne": 3}.get(m, 12)
-        ds = [x for x in (1, 2, 3, D, D + 1, (L or 0), (L or 0) + 1, min(k, dmax), N - 1, N - 2) if 1 <= x <= N]
+        # no d next to N here: a 300 x 299 Gram-Schmidt in the -O0 sanitizer build is slow, not hung
+        ds = [x for x in (1, 2, 3, D, D + 1, (L or 0), (L or 0) + 1, min(k, dmax)) if 1 <= x <= min(N, 40)]
         d = rng.choice(ds)
         if m == "hlle":
             d = min(d, 4)
@@ -920,10 +923,15 @@ def run(ctx):
     cases += random_cases(rng, 100000, 600 if quick else 6000, 50)
     nrandom = len(cases) - ncorpus - nboundary
     nlarge = 0
-    if not quick:
-        cases += large_cases(rng, 300000, 400, [64, 100, 150, 200, 300])
-        nlarge = len(cases) - ncorpus - nboundary - nrandom
     model, results = evaluate(ctx, exes, mexe, cases, stats)
+    if not quick:
+        large = large_cases(rng, 300000, 400, [64, 100, 150, 200, 300])
+        nlarge = len(large)
+        model2, results2 = evaluate(ctx, exes, mexe, large, stats, wd=90)     # slow is not hung
+        model.update(model2)
+        for b in results:
+            results[b].update(results2[b])
+        cases += large
     ctx.note("phases (s): Coq + extraction, with both C++ builds in parallel %.0f; sweep %.0f" % (t_build, ctx.elapsed() - t_build))
     n = 2 * len(cases)
     if (ctx.is_unshown() or unreadable) and not ctx.has_violation():
